@@ -269,3 +269,27 @@ func stabilityMonitor(prefix string) func(c *Ctx) []Violation {
 		return vs
 	}
 }
+
+// provideAcceptMonitor: a Provide of a well-formed constructor is rejected
+// only for a duplicate key or for a cycle; when it provides no key its home
+// scope already has and the dependency graph stays acyclic even under the most
+// permissive reading, it must be accepted (otherwise the constructor is usable
+// from nowhere).
+func provideAcceptMonitor(prefix string) func(c *Ctx) []Violation {
+	return func(c *Ctx) []Violation {
+		st := c.Step
+		if st.Op.Kind != h.OpProvide || st.Op.Fn == nil || st.V.Bad {
+			return nil
+		}
+		f := st.Op.Fn
+		extra := &model.Ctor{Inst: "new", F: f, Home: st.Op.Scope, Orig: st.Op.Scope, P: f.PLeaves(), R: f.RLeaves()}
+		if f.Export {
+			extra.Home = 0
+		}
+		c.Hit("provide_acceptance_checked")
+		if st.V.OK || dupOrInvalid(st.Model, extra) || !st.Model.GPerm(extra).Acyclic() {
+			return nil
+		}
+		return []Violation{{Rule: prefix + "/valid-provide-rejected", Detail: fmt.Sprintf("%s => %s (%s) although it provides no key its scope already has and closes no cycle under any reading", st.Op, st.V.Class(), st.V.Msg)}}
+	}
+}
